@@ -139,7 +139,7 @@ thread_local! {
     static MATRIX: RefCell<Option<(Context, Vec<(String, ExprRef)>)>> = const { RefCell::new(None) };
 }
 
-const PREFIXES: &[&str] = &["", "", "v_", "a b ", "x$y:", "0", "[3]#", "ü", "sig.", "~!@%", "let", "(", ";c ", "\"", "BitVec"];
+const PREFIXES: &[&str] = &["", "", "#x", "v_", "a b ", "x$y:", "0", "[3]#", "ü", "sig.", "~!@%", "let", "(", ";c ", "\"", "BitVec"];
 
 impl C05 {
     /// all checks for one expression; returns false after reporting a violation
